@@ -38,12 +38,12 @@ from c03_lib import Ref  # noqa: E402
 KINDS = ['file', 'demo:file:mapping', 'demo:mapping:mapping', 'mapping']
 HEX_KINDS = ['hex:file', 'hex:demo:file:mapping', 'hex:demo:mapping:mapping']
 RECORD_CLASSES = [(11, 0), (11, 0), (12, 0), (13, 1), (11, 2), (1, 0), (2, 0), (3, 0), (4, 0), (9, 0), (8, 0),
-                  (9, 2), (14, 1), (15, 0), (15, 0), (16, 0), (17, 1), (18, 0), (19, 0), (19, 0), (21, 0), (22, 0), (23, 0), (23, 0), (24, 0)]
+                  (9, 2), (14, 1), (15, 0), (15, 0), (16, 0), (17, 1), (18, 0), (19, 0), (19, 0), (21, 0), (22, 0), (23, 0), (23, 0), (24, 0), (25, 0)]
 
 
 # =============================================================================== generators
 def gen_ref(rng):
-    kl = rng.choice([('g', 11), ('g', 2), ('g', 9), ('g', 8), ('t', 2), ('t', 9), ('g', 13)])
+    kl = rng.choice([('g', 11), ('g', 2), ('g', 9), ('g', 8), ('t', 2), ('t', 9), ('g', 13), ('g', 25), ('g', 25)])
     fmt = rng.choice('comnwxl')
     oid = rng.choice([1, 2, 3, 0x7f7f7f7f7f7f7f7f, 2 ** 63 + 5, 257])
     db = rng.choice([5, 6])
@@ -69,7 +69,7 @@ def gen_tree(rng, depth, refs=True):
 
 def all_formats_tree(rng):
     """one reference of every format in one state"""
-    refs = [Ref('c', 2, ('g', rng.choice([11, 9]))), Ref('o', 3), Ref('m', 5, 4, ('g', rng.choice([2, 8]))),
+    refs = [Ref('c', 2, ('g', rng.choice([11, 9, 25]))), Ref('o', 3), Ref('m', 5, 4, ('g', rng.choice([2, 8, 25]))),
             Ref('n', 5, 6), Ref('w', 7), Ref('x', 8, 6), Ref('l', 9), Ref('c', 10, ('t', rng.choice([2, 9])))]
     rng.shuffle(refs)
     t = rng.randrange(100)
